@@ -11,7 +11,7 @@ def parseSample (s : String) : Option Sample :=
 def ob (o : Option Nat) : String := match o with | some v => toString v | none => "-"
 def b01 (b : Bool) : String := if b then "1" else "0"
 
-/-- `trun.rt <opt> <trexDur:trexSize:trexFlags> <flags:dur:size:cto>...` -/
+/-- `trun.rt <passes> <trexDur:trexSize:trexFlags> <flags:dur:size:cto>...` (passes = number of optimisation passes) -/
 def dispatch (op : String) (args : List String) : Option String :=
   match op, args with
   | "trun.rt", opt :: trex :: ss => do
@@ -19,11 +19,7 @@ def dispatch (op : String) (args : List String) : Option String :=
       let trexV : Trex := ⟨tx.getD 0 0, tx.getD 1 0, tx.getD 2 0⟩
       let samples ← ss.mapM parseSample
       let t0 : Trun := { samples := samples }
-      let (tfhd, t) ← if opt = "1" then
-          match optimize {} t0 with
-          | some r => some r
-          | none => none
-        else some (({} : Tfhd), t0)
+      let (tfhd, t) ← optimizeN (← opt.toNat?) {} t0
       let rb := readBack tfhd trexV t
       pure (s!"tfhd={ob tfhd.defDur},{ob tfhd.defSize},{ob tfhd.defFlags} trun={b01 t.hasDur}{b01 t.hasSize}{b01 t.hasFlags}{b01 t.hasCto},{ob t.firstFlags} " ++
         " ".intercalate (rb.map fun s => s!"{s.flags}:{s.dur}:{s.size}:{s.cto}"))
